@@ -177,7 +177,8 @@ def jobs(tier, seed):
             sk = [IND[(k * 5 + i * (k + 1) + seed) % len(IND)] for i in range(n)]
             if n >= 2:
                 sk[(k + seed) % n] = "lw" if k % 2 == 0 else "sw"  # one memory instruction per program
-            out.append({"label": "ind%d-%d:%s" % (n, k, ",".join(sk)), "harness": "independent", "args": {"mnems": sk}, "cost": 3 * n})
+            # n >= 7: thousands of register-aliasing paths; best effort (5 min each), started first
+            out.append({"label": "ind%d-%d:%s" % (n, k, ",".join(sk)), "harness": "independent", "args": {"mnems": sk}, "cost": 3 * n if n < 7 else 3000000, "optional": n >= 7})
     for i, sk in enumerate(PEN_SK):
         if tier == "quick" and len(sk) > 2:
             continue
